@@ -1,5 +1,6 @@
 """C16 -- rating containers round-trip and only ever grow."""
 import copy
+import json
 import hashlib
 import pathlib
 import shutil
@@ -713,6 +714,63 @@ def check(run):
             shutil.rmtree(dd, ignore_errors=True)
         except BaseException as e:
             run.obligation("same-file-name-scenario-completed", False,
+                           f"{type(e).__name__}: {e}")
+        # --- a folder of containers that hold the same curve under
+        # different fits: loading the folder equals loading each container
+        try:
+            from nanite.rate import io as _io
+            dd = common.scratch() / "c16-folder"
+            shutil.rmtree(dd, ignore_errors=True)
+            dd.mkdir(parents=True)
+            for j, who in enumerate(["alice", "bob", "carol"]):
+                cvj = fit_curve(load_curves(single)[0],
+                                **copy.deepcopy(FITS[j % len(FITS)]))
+                _io.save_hdf5(dd / f"rate_{who}.h5", cvj, 3 + j, who,
+                              f"fit {j}")
+            run.case({"scenario": "folder-of-containers", "containers": 3},
+                     kind="load:folder")
+
+            def summary(r):
+                ds = r["data_set"]
+                fpv = ds.fit_properties
+                pf = fpv.get("params_fitted")
+                return (str(r["comment"]), float(r["rating"]),
+                        list(ds.preprocessing),
+                        json.dumps(ds.preprocessing_options, sort_keys=True,
+                                   default=str),
+                        fpv.get("model_key"),
+                        None if pf is None else
+                        [(k_, repr(float(v_.value))) for k_, v_ in pf.items()],
+                        repr(fpv.get("range_x")), fpv.get("segment"),
+                        dig(np.asarray(ds["fit"])) if "fit" in ds else None,
+                        dig(np.asarray(ds["force"])),
+                        dig(np.asarray(ds["tip position"]))
+                        if "tip position" in ds else None)
+            try:
+                alone = []
+                for fpath in sorted(dd.glob("*.h5")):
+                    alone += [summary(r) for r in _io.load_hdf5(fpath)]
+                rs = _io.load(dd)
+                together = [summary(r) for r in rs]
+                why = None
+                if sorted(map(repr, alone)) != sorted(map(repr, together)):
+                    bad_ = [t[0] for t in together
+                            if repr(t) not in set(map(repr, alone))]
+                    why = ("ratings " + ", ".join(map(repr, bad_))
+                           + " load with another analysis from the folder "
+                           "than from their own container")
+                elif len(set(id(r["data_set"]) for r in rs)) != len(rs):
+                    why = "two ratings share one curve object"
+            except BaseException as e:
+                why = f"load raised {type(e).__name__}: {e}"
+            if why:
+                run.failing(SITE, "folder-of-containers", "three containers "
+                            "with the same curve under different fits in one "
+                            "folder: " + why, payload={"kind": "rerun"},
+                            theorem="C16_roundtrip")
+            shutil.rmtree(dd, ignore_errors=True)
+        except BaseException as e:
+            run.obligation("folder-scenario-completed", False,
                            f"{type(e).__name__}: {e}")
         # --- round trips
         cases = [("single-%d" % i, load_curves(single)[0], kw)
